@@ -28,6 +28,8 @@ class Gen:
         self.cfg, self.on, self.main = [], [], []
         # requests submitted without completion callback where the API allows it (monitor-only programs)
         self.nocb = rng.chance(1, 6)
+        # init calls that fail (socket() refused, bad domain, descriptor unusable): monitor-only programs
+        self.failinit = rng.chance(1, 6)
 
     def kind_weights(self):
         if self.bias == "C03":
@@ -111,6 +113,10 @@ class Gen:
                 g = ["alive", "backend_timeout", "backend_timeout"]
                 if i is not None: g += [f"is_active h{i}", f"has_ref h{i}", f"is_closing h{i}"]
                 return r.choice(g)
+            elif x < 97 and self.failinit and r.chance(2, 3):
+                return r.choice(["init_fail udp EMFILE", "init_fail udp ENFILE", "init_fail udp EAFNOSUPPORT", "init_fail udp ENOBUFS",
+                                 "init_fail udp EINVAL", "init_fail tcp EMFILE", "init_fail tcp ENFILE", "init_fail tcp EINVAL",
+                                 "init_fail poll EBADF", "init_fail poll EEXIST"])
             elif x < 97 and len(self.kinds) < 14:
                 k = r.choice(self.kind_weights()); self.kinds.append(k)   # id is a guess when issued from a callback
                 return f"init {k}"
@@ -176,6 +182,31 @@ class Gen:
         self.main += ["op close h0", "op close h1", "op run NOWAIT", "op run NOWAIT", "op loop_close"]
         return self.cfg + self.on + self.main
 
+    def build_signal_burst(self):
+        """signals really arrive: single ones and bursts beyond the capacity of the (shrunk) signal pipe while the loop is not
+        run; stop / close from the signal callback and from main; every close_cb must arrive within bounded iterations"""
+        r = self.r
+        nsig = r.range(1, 2)
+        n = r.choice([1, 2, 5, 40, 200, 256, 257, 300, 600])
+        self.cfg += [f"config metrics {int(r.chance(1, 2))}", "config clock0 1000", f"config cblimit {r.range(20, 40)}", "config sigpipe 4096"]
+        if r.chance(1, 4): self.cfg.append("config default_loop 1")
+        self.kinds += ["signal"] * nsig + ["timer"]
+        self.main += ["op init signal"] * nsig + ["op init timer", f"op start h{nsig} {r.range(1, 9)} {r.choice([0, 3])}"]
+        for i in range(nsig):
+            self.main.append(f"op start h{i} 0 0")
+            if n > 30 or r.chance(1, 2):
+                self.on.append(f"on h{i} {0 if n > 30 else r.below(2)} " + r.choice([f"stop h{i}", f"close h{i}", f"close h{i}", f"stop h{i} ; start h{i} 0 0 ; stop h{i}"]))
+        self.main.append(f"op raise {n}")
+        if r.chance(1, 2): self.main.append(f"op {r.choice(['close', 'stop'])} h{r.below(nsig)}")
+        for _ in range(r.range(1, 3)):
+            self.main.append("op run " + r.choice(["NOWAIT", "ONCE"]))
+            if r.chance(1, 3): self.main.append(f"op raise {r.choice([1, 2, 300])}")
+            if r.chance(1, 3): self.main.append(f"op close h{r.below(nsig)}")
+        for i in range(len(self.kinds)):
+            self.main.append(f"op close h{i}")
+        self.main += ["op run DEFAULT", "op run DEFAULT", "op loop_close"]
+        return self.cfg + self.on + self.main
+
     def build_embedder(self):
         """embedder style: I/O watchers started / changed outside uv_run (registrations pending in watcher_queue) with and
         without armed timers, uv_backend_timeout() before and after the loop applied them"""
@@ -226,7 +257,12 @@ class Gen:
             return self.build_stop_then_run()
         if self.bias == "C03" and r.chance(1, 8):
             return self.build_embedder()
+        if r.chance(1, 8 if self.bias == "C02" else 16):
+            return self.build_signal_burst()
         self.cfg.append(f"config metrics {int(r.chance(1, 2))}")
+        self.default_loop = r.chance(1, 4)
+        if self.default_loop:     # the loop under test is uv_default_loop(), looked up afresh at every use
+            self.cfg.append("config default_loop 1")
         self.cfg.append(f"config clock0 {r.choice([1000, 1000, 5, 123456789])}")
         self.cfg.append(f"config cblimit {r.range(12, 30 + 10 * self.size)}")
         if r.chance(1, 3 if self.bias == 'C03' else 8):
@@ -290,7 +326,7 @@ class Gen:
             self.main.append("op run " + r.choice(["DEFAULT", "DEFAULT", "ONCE", "ONCE", "NOWAIT"]))
             for _ in range(r.below(4)):
                 self.main.append("op " + self.rand_op(False))
-            if r.chance(1, 8): self.main.append("op loop_close")
+            if r.chance(1, 8) or (self.default_loop and r.chance(1, 2)): self.main.append("op loop_close")   # refused closes, then more ops
         if r.chance(1, 5):
             # uv_loop_close while only requests are outstanding (every handle closed and delivered, work still owed)
             for i in range(len(self.kinds) + 1):
@@ -400,8 +436,18 @@ class Mon:
                     H[ninit] = dict(kind=text[1], closing=False, dead=False); self.kinds_used.add(text[1])
                     if text[1] == "timer": T[ninit] = dict(active=False, due=0, rep=0, hascb=False)
                     ninit += 1
+                elif op == "init_fail":
+                    # a failed init leaves no trace: same handle count in uv_walk, same counters, same liveness
+                    want = {"EMFILE": -24, "ENFILE": -23, "EAFNOSUPPORT": -97, "ENOBUFS": -105, "EINVAL": -22, "EBADF": -9}.get(text[2])
+                    if text[1] == "poll" and text[2] != "EBADF": want = -17
+                    self.stats["failed_inits"] = self.stats.get("failed_inits", 0) + 1
+                    if ret != want:
+                        self.bad("C01", "init-fail-ret", f"failing {text[1]} init returned {ret}, expected {want}", i)
+                    if o0 and nxt and (o0["nh"], o0["ah"], o0["ar"], o0["alive"], o0["hs"]) != (nxt["nh"], nxt["ah"], nxt["ar"], nxt["alive"], nxt["hs"]):
+                        self.bad("C01", "failed-init-left-trace", f"a failed uv_{text[1]}_init changed the loop: uv_walk count {o0['nh']} -> {nxt['nh']}, "
+                                 f"active_handles {o0['ah']} -> {nxt['ah']}, alive {o0['alive']} -> {nxt['alive']}", i)
                 elif op == "close" and hid in H:
-                    H[hid]["closing"] = True
+                    H[hid]["closing"] = True; H[hid]["iters_since_close"] = 0
                     if depth:
                         self.stats["close_from_cb"] += 1
                         if cbstack and cbstack[-1][0] == H[hid]["kind"]: self.stats["close_same_phase"] += 1
@@ -608,6 +654,15 @@ class Mon:
             if l.startswith("res "):
                 # resources_released: after the close callback of an fs_event handle its kernel watch is gone unless
                 # another started fs_event handle still watches the (single) directory
+                me = re.match(r"res h(\d+) epoll=(-?\d+)$", l)
+                if me:
+                    # resources_released: the kernel interest set of the loop no longer holds the handle's open file
+                    # (the application keeps the descriptor / a dup of it open, so the kernel does not clean up by itself)
+                    self.stats["epoll_interest_checked"] = self.stats.get("epoll_interest_checked", 0) + 1
+                    if int(me.group(2)) > 0:
+                        self.bad("C02", "epoll-registration-left", f"after close_cb of h{me.group(1)} its descriptor is still registered "
+                                 f"in the loop's epoll instance ({me.group(2)} entry)", i)
+                    i += 1; continue
                 mw = re.match(r"res wq=(\d)$", l)
                 if mw:
                     self.wq_pending = mw.group(1) == "1"      # state at the uv_backend_timeout() call printed next
@@ -790,6 +845,14 @@ class Mon:
         if r["cur_iter"] is not None and it not in (r["cur_iter"], r["cur_iter"] + 1):
             self.bad("C03", "iteration-count", f"loop_count jumped from {r['cur_iter']} to {it}", i)
         if first:
+            # close_cb within a bounded number of iterations: the closing phase of the iteration in which (or right after
+            # which) uv_close was called delivers it; nothing may postpone it beyond the next one
+            for h, d in H.items():
+                if d["closing"] and not d["dead"]:
+                    d["iters_since_close"] = d.get("iters_since_close", 0) + 1
+                    if d["iters_since_close"] == 3:
+                        self.bad("C02", "close-cb-missing", f"h{h} ({d['kind']}) was closed two full loop iterations ago and its close_cb "
+                                 "has still not been delivered", i)
             self.stats["iterations"] += 1
             if r["cur_iter"] is not None and r["mode"] != "DEFAULT":
                 self.bad("C03", "once-two-iterations", f"uv_run({r['mode']}) ran a second iteration", i)
@@ -974,7 +1037,7 @@ def prog_metrics(prog):
 
 
 def evaluate(ctx, exe, prog, tag, with_model=True):
-    if any(re.search(r"\b(touch|work_nocb|udp_send_nocb|dgram)\b|config eagain", l) for l in prog):
+    if any(re.search(r"\b(touch|work_nocb|udp_send_nocb|dgram|init_fail|raise)\b|config eagain", l) for l in prog):
         # file-system traffic, requests without completion callback, incoming datagrams / forced EAGAIN:
         # monitors only (the model has no semantics for them)
         with_model = False
